@@ -21,8 +21,8 @@ mcvars == <<cb, d, st, out>>
 
 \* strings over the encoded forms that contain at least one of them
 EncStringsUpTo(n) == TX!StringsUpTo(EncAlphabet, n) \ TX!StringsUpTo({"a"}, n)
-\* prefixed names: one shorter
-DataFor(c) == LET k == IF c.pfx = "" THEN 0 ELSE 1
+\* prefixed names, padded menus and title structures: one shorter
+DataFor(c) == LET k == IF c.short THEN 1 ELSE 0
               IN TX!StringsUpTo(DataAlphabet, MaxLen - k) \cup EncStringsUpTo(MaxEnc - k)
 
 Init == /\ cb \in ComboIds
